@@ -759,17 +759,45 @@ def mutate_text(rng, t):
     return m
 
 
+def real_routed(text):
+    """{'S:name' | 'N:name': enc_net(routed)} of the real parse result (the DefWire records of every net)"""
+    from kyupy import def_file
+    d = def_file.parse(text)
+    out = {}
+    for tag, table in (('S:', d.specialnets), ('N:', d.nets)):
+        for name, dnet in table.items():
+            v = enc_net(getattr(dnet, 'routed', None))
+            out[tag + pct(name)] = '.' if v == '~' else v
+    return out
+
+
 def text_level(ck, texts, origin):
-    """same parse tree (every token, every rule) or both reject; same accept/raise of the transformer"""
+    """same parse tree (every token, every rule) or both reject; same accept/raise of the transformer; for generated
+    texts also the hand-over: the ROUTED wires of every net as the routing model `KV.Def` receives them"""
     outs = textmut.drv([f'defparse {textmut.pct(t)}' for t in texts])
     for t, o in zip(texts, outs):
         lt = lark_sexp(t)
         exp = 'syntax' if lt is None else real_parse_status(t) + ' ' + lt
+        f = o.split(' ')
+        got = o if len(f) < 3 else f[0] + ' ' + f[1]
         ck.case(key=('text', t), nontrivial=lt is not None, tag=[f'text:{origin}', 'text-result:' + exp.split(' ')[0]])
-        if o != exp:
-            i = next((k for k in range(min(len(o), len(exp))) if o[k] != exp[k]), min(len(o), len(exp)))
+        if got != exp:
+            i = next((k for k in range(min(len(got), len(exp))) if got[k] != exp[k]), min(len(got), len(exp)))
             ck.broken_tie(f'DEF text model (grammar of def_file.py) vs lark, {origin} text',
-                          f'real {exp[:60]} .. {exp[max(0, i - 80):i + 80]} != model {o[:60]} .. {o[max(0, i - 80):i + 80]}', inp={'def_text': t})
+                          f'real {exp[:60]} .. {exp[max(0, i - 80):i + 80]} != model {got[:60]} .. {got[max(0, i - 80):i + 80]}', inp={'def_text': t})
+            continue
+        if origin == 'generated' and f[0] == 'ok' and len(f) == 3:
+            norm = lambda v: '.' if v == '~' else v     # "no ROUTED statement": absent attribute (~) or empty list (.)
+            model = {} if f[2] == '-' else {k: norm(v) for k, v in (x.split('=', 1) for x in f[2].split('!'))}
+            try:
+                real = real_routed(t)
+            except Exception as ex:
+                ck.broken_tie('DEF text model hand-over', f'{type(ex).__name__}: {ex}'[:300], inp={'def_text': t}); continue
+            ck.hist['text-nets-compared'] += len(real)
+            if model != real:
+                k = next((k for k in list(real) + list(model) if real.get(k) != model.get(k)), None)
+                ck.broken_tie('DEF text model hand-over (ROUTED wires of a net as DefWire records)',
+                              f'{k}: real {str(real.get(k))[:200]} != model {str(model.get(k))[:200]}', inp={'def_text': t})
 
 
 def text_stream(ck, scale):
